@@ -437,7 +437,7 @@ def c11(tier):
 def sched_env(tag):
     os.makedirs(orch.BUILD, exist_ok=True)
     d = tempfile.mkdtemp(prefix="sched_%s_" % tag, dir=orch.BUILD)  # per run: another tier of the same check may be going on at the same time
-    return d, {"GORACE": "log_path=%s/race halt_on_error=0 exitcode=0" % d, "VERIF_TMP": d, "GOMAXPROCS": "4"}
+    return d, {"GORACE": "log_path=%s/race halt_on_error=0 exitcode=0" % d, "VERIF_TMP": d, "GOMAXPROCS": "4", "VERIF_SCHED": "1"}
 
 
 SCHED_ASSUME = ["scheduling points: every lock/unlock, channel operation, select, atomic, pool Get/Put, go statement, sleep, socket read; code between two points runs atomically (sound for race-free code; unsynchronized accesses are caught by the race detector in the same executions)",
